@@ -219,8 +219,6 @@ class SymArr:
         """Element (V) at index tuple of V ints; no bounds obligation."""
         if len(idx) != len(self.shape):
             raise SpecError("rank mismatch in at(): %s vs shape %s" % (idx, self.shape))
-        c = ctx()
-        c.touch_index(idx)
         return self.storage.fn(self.fwd(idx))
 
     def snapshot(self):
@@ -1069,7 +1067,10 @@ def sym_input(name, shape, kind="f", nan=False):
     rng = {"f": z3.RealSort(), "i": z3.IntSort(), "b": z3.BoolSort()}[kind]
     f = z3.Function(name, *([z3.IntSort()] * rank + [rng]))
 
+    leaf_id = next(_storage_ids)
+
     def fn(idx):
+        ctx().leaf_touch(leaf_id, tuple(idx))
         t = f(*[to_z3(i) for i in idx])
         if kind == "b":
             return SymBool(t)
